@@ -231,6 +231,29 @@ ensures
             u.fn(f, "impl SelectStatement", "and_having", props=P, rules=[r_retself],
                  key="SelectStatement::and_having", spec=HOLD % {"f": "having", "env": ENV, "add": "sem_expr(other, env)"})
         u.emit("}\n")
+    # ---- ON CONFLICT: the conflict target's filter and the action's filter are two holders; each builder method feeds ITS OWN ----
+    PU = ["C06", "C08", "C01"]
+    u.type_item("src/query/on_conflict.rs", "struct", "OnConflict", props=PU, keep_fields=["target_where", "action_where"], rules=[r_vis])
+    u.emit("impl OnConflict {\n")
+    OC = """requires !(old(self).%(f)s.contents is Chain),
+ensures
+    // the filter given for the %(what)s lands in the %(what)s's holder, ANDed to what was there; the other filter is untouched
+    final(self).%(f)s.contents is Condition, final(self).%(g)s == old(self).%(g)s,
+    %(env)s#[trigger] sem_holder(final(self).%(f)s, env) == and3(sem_holder(old(self).%(f)s, env), %(add)s),"""
+    OCO = """requires !(old(self).%(f)s.contents is Chain),
+ensures
+    other is None ==> *final(self) == *old(self),
+    other is Some ==> final(self).%(f)s.contents is Condition && final(self).%(g)s == old(self).%(g)s
+        && (%(env)s#[trigger] sem_holder(final(self).%(f)s, env) == and3(sem_holder(old(self).%(f)s, env), sem_expr(other->Some_0, env))),"""
+    for pre, f, g, what in [("target", "target_where", "action_where", "conflict target"), ("action", "action_where", "target_where", "action")]:
+        d = {"f": f, "g": g, "what": what, "env": ENV}
+        u.fn("src/query/on_conflict.rs", "impl OnConflict", pre + "_cond_where", props=PU, rules=r_ic, key="OnConflict::%s_cond_where" % pre,
+             spec=OC % dict(d, add="condition.cond_sem(env)"))
+        u.fn("src/query/on_conflict.rs", "impl OnConflict", pre + "_and_where", props=PU, rules=[r_retself], key="OnConflict::%s_and_where" % pre,
+             spec=OC % dict(d, add="sem_expr(other, env)"))
+        u.fn("src/query/on_conflict.rs", "impl OnConflict", pre + "_and_where_option", props=PU, rules=[r_retself], key="OnConflict::%s_and_where_option" % pre,
+             spec=OCO % d)
+    u.emit("}\n")
     # ---- JOIN .. ON <condition> and CASE WHEN <condition> ---------------------------------------------------------------------------
     JOINP = """ensures
     // one join is appended; its ON predicate means exactly the condition that was given
